@@ -195,3 +195,123 @@ def rule_left_call_table(a: Analysis, rule_id: str) -> RuleReport:
                         if set(want) - set(got) else 'a rule is treated as left recursive although the call is not at the same position'),
                      fn.loc)
     return rep
+
+
+# --------------------------------------------------------------------------- all small rule graphs
+import itertools
+
+from ..modelinterp import ModelInterp as _MI
+
+
+def _simple_cycles(names, edges):
+    cycles = set()
+
+    def dfs(start, node, path):
+        for (u, v) in edges:
+            if u != node:
+                continue
+            if v == start:
+                cycles.add(tuple(path))
+            elif v not in path and v > start:
+                dfs(start, v, path + [v])
+
+    for s in names:
+        dfs(s, s, [s])
+    return [list(c) for c in cycles]
+
+
+def _sccs(names, edges):
+    reach = {n: {n} for n in names}
+    changed = True
+    while changed:
+        changed = False
+        for (u, v) in edges:
+            for n in names:
+                if u in reach[n] and v not in reach[n]:
+                    reach[n].add(v)
+                    changed = True
+    comps = []
+    seen = set()
+    for n in names:
+        if n in seen:
+            continue
+        comp = {m for m in names if m in reach[n] and n in reach[m]}
+        seen |= comp
+        comps.append(comp)
+    return comps
+
+
+def rule_all_small_graphs(a: Analysis, rule_id: str, tier: str) -> RuleReport:
+    rep = RuleReport(
+        rule_id,
+        'left-recursion marking over ALL rule graphs with up to 3 rules (every subset of the 9 possible left-call edges, 512 '
+        'graphs, exhaustive): mark_left_recursion with its SCC/cycle helpers is interpreted on stand-in rules whose bodies are '
+        'choices of `call token` sequences; required: (1) some rule is marked iff the graph has a cycle (so the grammar error '
+        'with left recursion off is exact); (2) a rule on no cycle stays is_lrec=False, is_memo=True; (3) every cycle contains a '
+        'marked rule (only marked rules get the runtime guard: an unmarked cycle recurses without bound)',
+        floor=512,
+    )
+    b = B(a)
+    names = ('a', 'b', 'c')
+    all_edges = [(u, v) for u in names for v in names]
+    fn = a.p.func('tatsu.peg.leftrec.pegen.mark_left_recursion')
+    bad_known: list[str] = []
+    two = [i for i, (u, v) in enumerate(all_edges) if 'c' not in (u, v)]
+    masks = list(range(1 << len(all_edges)))
+    if tier != 'thorough':
+        # quick: every graph over two rules (16) plus every 8th graph over three rules; thorough: all 512
+        small = {sum(1 << i for j, i in enumerate(two) if sub >> j & 1) for sub in range(1 << len(two))}
+        masks = sorted(small | set(range(0, 1 << len(all_edges), 8)))
+        rep.floor = len(masks)
+        rep.text += ' [quick tier: all 16 two-rule graphs and every 8th three-rule graph; the thorough tier enumerates all 512]'
+    for mask in masks:
+        edges = {e for i, e in enumerate(all_edges) if mask >> i & 1}
+        rules = []
+        for n in names:
+            opts = [b.seq(b.call(t), b.tok()) for t in names if (n, t) in edges] + [b.seq(b.tok())]
+            rules.append(Stub(Q['Rule'], name=n, exp=b.choice(*opts), no_memo=False, is_lrec=True, is_memo=False))
+        it = _MI(a)
+        try:
+            res = it.call_fn(fn, [rules])
+        except Unsupported as e:
+            raise AnalysisError(f'cannot interpret mark_left_recursion on graph {sorted(edges)}: {e}') from e
+        marked = {r._attrs['name'] for r in rules if r._attrs['is_lrec']}
+        memo = {r._attrs['name'] for r in rules if r._attrs['is_memo']}
+        returned = {r._attrs['name'] for r in res}
+        cycles = _simple_cycles(names, edges)
+        on_cycle = set().union(*map(set, cycles)) if cycles else set()
+        gtxt = ' '.join(f'{u}->{v}' for u, v in sorted(edges)) or '(no edges)'
+        problems = []
+        if bool(returned) != bool(cycles) or returned != marked:
+            problems.append(('detect', f'graph [{gtxt}]: returned rules {sorted(returned)}, marked {sorted(marked)}, cycles {cycles}: the grammar '
+                                       f'error with left recursion off would be {"missed" if cycles else "spurious"}'))
+        for n in names:
+            if n not in on_cycle and (n in marked or n not in memo):
+                problems.append(('offcycle', f'graph [{gtxt}]: rule {n} lies on no cycle but is_lrec={n in marked} is_memo={n in memo}'))
+        unguarded = [c for c in cycles if not (set(c) & marked)]
+        if unguarded:
+            # is there a better choice?  a rule common to all cycles of each affected component
+            comps = _sccs(names, edges)
+            excusable = True
+            for c in unguarded:
+                comp = next(k for k in comps if c[0] in k)
+                ccycles = [x for x in cycles if set(x) <= comp]
+                common = set(comp).intersection(*map(set, ccycles))
+                if common:
+                    excusable = False
+            if excusable:
+                bad_known.append(gtxt)
+            else:
+                problems.append(('leader', f'graph [{gtxt}]: cycle(s) {unguarded} contain no marked rule (marked: {sorted(marked)}) although '
+                                           f'their component has a rule that lies on all of its cycles: the wrong leader was chosen, the '
+                                           f'unmarked cycle recurses without bound'))
+        rep.add({'graph': gtxt, 'marked': sorted(marked), 'memoized': sorted(memo), 'cycles': len(cycles), 'ok': not problems and not unguarded})
+        for kind, msg in problems[:1]:
+            rep.fail(fn.qualname, f'{kind}:{gtxt}', msg, fn.loc)
+    if bad_known:
+        rep.fail(fn.qualname, 'no-common-leader',
+                 f'{len(bad_known)} of the {len(masks)} graphs have a component whose cycles share no rule (e.g. [{bad_known[0]}]): '
+                 f'mark_left_recursion marks a single leader per component, so one of the cycles has no marked rule and no runtime '
+                 f'guard - parsing recurses without bound (RecursionError)', fn.loc)
+    rep.notes.append(f'graphs with a component whose cycles share no rule: {len(bad_known)}')
+    return rep
